@@ -360,7 +360,7 @@ def known_match(pid, what, detail, kf):
 
 
 def conclude_diff(pid, tier, seed, t0, proof, results, check_impl, features, strip_model_prefixes=(),
-                  model_flags=None, what="", extra_cov=None, level="proof", check_pair=None):
+                  model_flags=None, what="", extra_cov=None, level="proof", check_pair=None, extra_violations=None):
     """Common verdict logic for model-vs-implementation line comparisons.
     results: list of dict(k, inst, hstatus, dstatus, impl, model)."""
     kf = load_known_findings()
@@ -401,6 +401,12 @@ def conclude_diff(pid, tier, seed, t0, proof, results, check_impl, features, str
                 violations.append((w, r, detail))
         if len(samples) < 2 and len(r["impl"]) > 3:
             samples.append({"instance": r["inst"], "observations_head": r["impl"][:6]})
+    for (w, detail) in (extra_violations or []):
+        e = known_match(pid, w, detail, kf)
+        if e:
+            known.append((e, {"inst": {}}, detail))
+        else:
+            violations.append((w, {"inst": {"note": "pipeline run"}}, detail))
     rc = 0
     lines = []
     seen_known = set()
